@@ -27,7 +27,9 @@ RULE = ('signatures = every legal kind sequence over positional-only / positiona
         'is_random=False / strategy On; >= 40 calls per signature: 17 directed shapes (all positional, all keyword, '
         'minimal, missing, surplus positionals, keyword equal to a positional-only name, duplicate, novel keywords, '
         'keywords named like the variadic parameters, explicit defaults) each with all-satisfying and one-violating '
-        'values, plus random shapes; expected outcome from the undecorated twins\' binding alone; distinct by '
+        'values, plus random shapes; expected outcome from the undecorated twins\' binding alone; plus a stream in which '
+        'the decorated callable is a functools.wraps closure around the annotated original (pure pass-through or with '
+        'parameters of its own), compared call by call with the undecorated closure; distinct by '
         '(signature, call shape, value classes); non-trivial = the signature has an annotated parameter')
 
 NMARK = 10
@@ -595,6 +597,102 @@ def run_wraps_case(W, stream, idx, seq, rng):
         sys.modules.pop(modname, None)
 
 
+def run_stdlib_decorator_case(W, stream, idx, rng):
+    """@beartype written ABOVE a standard-library decorator it knows how to see through (functools.lru_cache,
+    contextlib.contextmanager): it must behave like the same decorator applied, with the same parameters, on top of
+    the checked function (the documented order), call by call, including cache hits and equal values of other types."""
+    import contextlib
+    import functools
+    cname, dec = rng.choice(CONFS)
+    kind = rng.choice(('lru_cache', 'lru_cache', 'contextmanager'))
+    runs = {'above': [], 'ideal': []}
+    wit = dict(kind=kind, conf=cname)
+    W.count('stdlib.cases')
+    W.count('stdlib.kind.' + kind)
+    if kind == 'lru_cache':
+        params = dict(maxsize=rng.choice((None, 1, 2, 128)), typed=rng.random() < .5)
+        wit['lru_cache'] = params
+
+        def mk(tag):
+            def scale(factor: int, value: float = 1.0, *, unit: str = 'u') -> tuple:
+                runs[tag].append((factor, value, unit))
+                return (factor, value, unit)
+            return scale
+        try:
+            above = dec(functools.lru_cache(**params)(mk('above')))
+        except Exception as e:   # noqa
+            W.violation('stdlib-decorator:decorate-raised:' + type(e).__name__, f'@beartype above lru_cache({params}) raised {short(e, 200)}',
+                        stream, idx, wit)
+            return
+        ideal = functools.lru_cache(**params)(dec(mk('ideal')))
+        got_p = getattr(above, 'cache_parameters', lambda: None)()
+        if got_p != params:
+            W.violation('stdlib-decorator:lru_cache-parameters-changed',
+                        f'@beartype above lru_cache({params}): cache_parameters() is {got_p}', stream, idx, wit)
+            return
+        pool = [(2,), (2.0,), (True,), (1,), ('x',), (3, 1.5), (3, 1), (2, 1.0), (2,), (3.0, 1.5), (1,), (None,), (2, 1.0, 'k')]
+        calls = [rng.choice(pool) for _ in range(rng.choice((6, 10, 16)))]
+        for a in calls:
+            kw = {'unit': a[2]} if len(a) == 3 else {}
+            outs = []
+            for f in (above, ideal):
+                try:
+                    outs.append(('value', f(*a[:2], **kw)))
+                except BeartypeCallHintViolation:
+                    outs.append(('violation',))
+                except Exception as e:   # noqa
+                    outs.append(('raised', type(e).__name__))
+            W.count('stdlib.calls')
+            W.evaluate(('lru', cname, tuple(sorted(params.items(), key=str)), tuple(map(repr, calls[:4]))))
+            if outs[0] != outs[1] or len(runs['above']) != len(runs['ideal']):
+                W.violation('stdlib-decorator:lru_cache-differs-from-documented-order',
+                            f'@beartype above lru_cache({params}) under {cname}: call {a!r} of {calls!r} -> {outs[0]} '
+                            f'(body ran {len(runs["above"])}x so far) but lru_cache(...)(beartype(f)) -> {outs[1]} '
+                            f'(body ran {len(runs["ideal"])}x)', stream, idx, dict(wit, calls=[repr(c) for c in calls]))
+                return
+        W.count('stdlib.sequences_identical')
+    else:
+        def mk(tag):
+            def managed(a: int, b: str = 's'):
+                runs[tag].append(('enter', a, b))
+                try:
+                    yield (a, b)
+                finally:
+                    runs[tag].append(('exit',))
+            return managed
+        ret = rng.choice((None, 'Iterator'))
+        fa, fi = mk('above'), mk('ideal')
+        if ret:
+            import typing
+            fa.__annotations__['return'] = typing.Iterator[tuple]
+            fi.__annotations__['return'] = typing.Iterator[tuple]
+        try:
+            above = dec(contextlib.contextmanager(fa))
+        except Exception as e:   # noqa
+            W.violation('stdlib-decorator:decorate-raised:' + type(e).__name__, f'@beartype above contextmanager raised {short(e, 200)}',
+                        stream, idx, wit)
+            return
+        ideal = contextlib.contextmanager(dec(fi))
+        for a in [rng.choice(((1,), (1, 't'), ('x',), (1, 2), (True,), ())) for _ in range(6)]:
+            outs = []
+            for f in (above, ideal):
+                try:
+                    with f(*a) as v:
+                        outs.append(('entered', v))
+                except BeartypeCallHintViolation:
+                    outs.append(('violation',))
+                except Exception as e:   # noqa
+                    outs.append(('raised', type(e).__name__))
+            W.count('stdlib.calls')
+            W.evaluate(('cm', cname, ret, a))
+            if outs[0] != outs[1] or runs['above'] != runs['ideal']:
+                W.violation('stdlib-decorator:contextmanager-differs-from-documented-order',
+                            f'@beartype above contextmanager under {cname}: managed{a!r} -> {outs[0]}, events {runs["above"][-3:]}; '
+                            f'contextmanager(beartype(f)) -> {outs[1]}, events {runs["ideal"][-3:]}', stream, idx, wit)
+                return
+        W.count('stdlib.sequences_identical')
+
+
 def main():
     W = Worker('C04', RULE, assumptions=[
         'the reference binding is Python\'s own binder (undecorated twins with the identical signature returning locals()); '
@@ -621,8 +719,12 @@ def main():
         cand = list(kind_sequences(n))
         run_case(W, 'big', idx, rng.choice(cand), rng)
         W.count('signatures.sampled_beyond_exhaustive')
-    for idx in W.cases('wraps', limit):
+    for idx in W.cases('wraps', limit, frac=0.94):
         run_wraps_case(W, 'wraps', idx, seqs[idx % len(seqs)], W.rng('wraps', idx))
+    for idx in W.cases('stdlib', limit):
+        run_stdlib_decorator_case(W, 'stdlib', idx, W.rng('stdlib', idx))
+    W.need('stdlib.cases', 100)
+    W.need('stdlib.sequences_identical', 80)
     W.need('wraps.closures', 300)
     W.need('wraps.calls_identical', 3000)
 
